@@ -201,7 +201,7 @@ class Scaler(Logic):
         self.r.put(period & 1)
 
 
-def build(kind):
+def build(kind, with_sim=True):
     """-> ns(sys, free, child (for G2/G3), prim (for P), spare wires for M)"""
     hw = py4hw.HWSystem()
     c = types.SimpleNamespace(sys=hw, kind=kind)
@@ -219,6 +219,7 @@ def build(kind):
         # concatenations with more than one input (inlined; their input lists belong to the circuit, not to the generator)
         py4hw.ConcatenateMSBF(hw, 'cat_m', [a, b, n], hw.wire('cm', 6))
         py4hw.ConcatenateLSBF(hw, 'cat_l', [r0, a], hw.wire('cl', 4))
+        py4hw.Constant(hw, 'kneg', -2, hw.wire('kn', 3))          # a negative constant (its wire carries the pattern only once simulated)
         c.free = [a, b]
         # the edit gives the so far purely combinational top its first clocked element
         c.edit = lambda: py4hw.Reg(hw, 'extra', r2, hw.wire('extra', 2))
@@ -314,6 +315,8 @@ def build(kind):
     c.ng3 = 0
     c.lst = []          # the caller-owned list of already emitted structures (op L)
     c.nl = 0
+    if not with_sim:
+        return c
     c.sim = hw.getSimulator()
     c.st = core.SysState(hw, free=c.free)
     c.gen = py4hw.VerilogGenerator(hw)
@@ -548,6 +551,22 @@ def run_shard(d):
            'violations': [], 'samples': [], '_outcomes': set()}
     canon = canon_for(d['kind'], d['kind2'])
     nodes = set()
+    if d['prefix'] == [OPS[0]] * len(d['prefix']):
+        # once per circuit: the hierarchy text asked for BEFORE any simulator exists for the circuit equals the canonical text
+        # (which was produced after the simulator had been created): generation does not depend on simulation having happened
+        want = canon.get(('hier', False))
+        if want is not None and want != 'REFUSED':
+            try:
+                with core.quiet():
+                    c0 = build(d['kind'], with_sim=False)
+                    got = normalise(py4hw.VerilogGenerator(c0.sys).getVerilogForHierarchy())
+            except Exception as e:
+                got = 'RAISED ' + repr(e)[:160]
+            res['evaluations'] += 1
+            if got != want:
+                res['violations'].append({'sig': 'C19:%s:text_differs:before_any_simulator' % d['kind'], 'shard': d, 'trace': [],
+                                          'detail': {'sigkey': 'text_differs:before_any_simulator',
+                                                     'first_difference': first_diff(want, got)}})
     for hist in histories(d):
         res['programs'] += 1
         res['traces_validated_against_impl'] += 1
@@ -570,5 +589,11 @@ def replay(v):
     d = v['shard']
     canon = canon_for(d['kind'], d['kind2'])
     res = {'transitions': 0, 'evaluations': 0, '_outcomes': set()}
+    if v['sig'].endswith(':before_any_simulator'):
+        with core.quiet():
+            c0 = build(d['kind'], with_sim=False)
+            got = normalise(py4hw.VerilogGenerator(c0.sys).getVerilogForHierarchy())
+        want = canon.get(('hier', False))
+        return {'history': [], 'violates': got != want, 'detail': first_diff(want, got) if got != want else None}
     det = run_history(d['kind'], d['kind2'], v['trace'], canon, res)
     return {'history': v['trace'], 'violates': det is not None, 'detail': det}
